@@ -133,7 +133,10 @@ def showCRes : CRes → String
 
 def showLOut : LOut → String
   | .read o => "read " ++ showObs o
-  | .conn o => s!"conn {o.consumed} {if o.connected then 1 else 0} {showCRes o.res}"
+  | .conn o =>
+    -- a hung `connect()` never returns: there is no state "afterwards" to compare
+    if o.res == .blocked then s!"conn {o.consumed} - blocked"
+    else s!"conn {o.consumed} {if o.connected then 1 else 0} {showCRes o.res}"
   | .unit => "unit"
 
 def lout_blocked : LOut → Bool
